@@ -501,7 +501,8 @@ def m_lifecycle(hist, rec):
         return
     var = variant(c["msg"])
     now_s = int(b["ledger"]["time"]) // 10 ** 9
-    if var == "submit_batch" and not cfg(b)["stopped"] and c["outcome"] != "panic":
+    # (a message the deserializer refuses never reaches the handler: it says nothing about SubmitBatch)
+    if var == "submit_batch" and not cfg(b)["stopped"] and c["outcome"] != "panic" and c["kind"] != "Parse":
         pb = q(b, "pending")
         sb = state(b)
         if pb is None or sb is None:
